@@ -190,6 +190,10 @@ def run(chk, tier):
         # R10.8 'after joining the threads the verdict equals that of the same calls made sequentially': what a worker's clone did reaches the
         # original only through the shared counters and the shared error list - never through a flag that silences it (teardown decision table)
         L.teardown_table(chk, F, 'R10.8', cfg)
+        # R10.9 a call rejected on any thread - through a clone or through the shared `&Unimock` itself - is recorded in the shared error list
+        # before that thread panics: it is the only trace the call leaves (rejected calls bump no counter), so the verdict after `join` needs it
+        from props import c08
+        c08.records_before_panic(chk, F, 'R10.9', cfg, 'nostd' in cfg)
 
         # ---- R10.3 interior mutability census
         seen = set()
